@@ -326,3 +326,6 @@ def run(ctx):
     # the stream this property talks about is all-or-nothing: generate_dump succeeds only if its writer returned Ok (rules/c01.py rule_hard_streams)
     from rules import c01 as _c01h
     _c01h.rule_hard_streams(ctx, R="C07/hard-streams", only=('thread_list_stream::write', 'app_memory::write', 'memory_list_stream::write'))
+    # "every non-empty thread stack appears": a thread is left out of the list only when it could not be attached or has no stack (rules/families.py)
+    from rules import families as _famt
+    _famt.thread_list(ctx, "C07")
